@@ -35,8 +35,6 @@ open AsciiStr
 
 /-- Which variant of the code is modelled (`true` = rich 9.10.0 as found, `false` = repaired). -/
 structure Cfg where
-  /-- flags of the Style model (C06); only the fields of styles are observed here -/
-  sv : StyleVariant
   /-- F10: `int(_code)` for a code that passes `str.isdigit()` but that `int()` rejects (`"²"`, or more
   digits than `sys.get_int_max_str_digits()`) raises `ValueError` out of `decode_line`;
   repaired: such a code is skipped like every other invalid code. -/
@@ -55,8 +53,14 @@ structure Cfg where
   offSingle : Bool
 deriving Repr, DecidableEq
 
-def Cfg.old : Cfg := ⟨StyleVariant.fixed, true, true, true, true, true⟩
-def Cfg.repaired : Cfg := ⟨StyleVariant.fixed, false, false, false, false, false⟩
+def Cfg.old : Cfg := ⟨true, true, true, true, true⟩
+def Cfg.repaired : Cfg := ⟨false, false, false, false, false⟩
+
+/-- The variant of the Style model (C06) the decoder's style operations are taken at: the repaired one.  Only the
+five compared fields of a style and `_null` are observed here; on the decoder's inputs (table entries without `rgb(…)`
+or links, `from_color`, `update_link` with a non-empty link or `None`) no flag of `StyleVariant` changes them — the
+correspondence compares exactly those fields on every run. -/
+abbrev Cfg.sv (_ : Cfg) : StyleVariant := StyleVariant.fixed
 
 def ESC : Char := Char.ofNat 27
 
@@ -476,15 +480,16 @@ def oscClose : List Char := [ESC, ']', '8', ';', ';', ESC, '\\']
 def sgrOpen (attrs : List Char) : List Char := ESC :: '[' :: attrs ++ ['m']
 def sgrReset : List Char := [ESC, '[', '0', 'm']
 
-/-- `Style.render(text, color_system=TRUECOLOR, legacy_windows=False)`; `linkId` is `_link_id`. -/
-def renderSeg (linkId : List Char) (s : Style) (text : List Char) : Except EncErr (List Char) :=
+/-- `Style.render(text, color_system=TRUECOLOR, legacy_windows=legacy)`; `linkId` is `_link_id`.
+The hyperlink is written only `if self._link and not legacy_windows`. -/
+def renderSeg (legacy : Bool) (linkId : List Char) (s : Style) (text : List Char) : Except EncErr (List Char) :=
   if text.isEmpty then .ok text
   else
     match makeAnsiCodes s with
     | .error e => .error e
     | .ok attrs =>
       let rendered := if attrs.isEmpty then text else sgrOpen attrs ++ text ++ sgrReset
-      if strTruthy s.link then .ok (oscOpen linkId (s.link.getD []) ++ rendered ++ oscClose)
+      if strTruthy s.link && !legacy then .ok (oscOpen linkId (s.link.getD []) ++ rendered ++ oscClose)
       else .ok rendered
 
 /-- A segment as `_render_buffer` sees it (not a control segment). -/
@@ -495,19 +500,19 @@ structure Seg where
   linkId : List Char := []
 deriving Repr, DecidableEq
 
-/-- `if style: append(style.render(text, …)) else: append(text)` -/
-def encodeSeg (g : Seg) : Except EncErr (List Char) :=
+/-- `if style: append(style.render(text, …, legacy_windows=legacy)) else: append(text)` -/
+def encodeSeg (legacy : Bool) (g : Seg) : Except EncErr (List Char) :=
   match g.style with
-  | some s => if s.toBool then renderSeg g.linkId s g.text else .ok g.text
+  | some s => if s.toBool then renderSeg legacy g.linkId s g.text else .ok g.text
   | none => .ok g.text
 
-/-- `Console._render_buffer` of one line of segments on a truecolor terminal. -/
-def encodeSegs : List Seg → Except EncErr (List Char)
+/-- `Console._render_buffer` of one line of segments on a truecolor terminal (`legacy` = `console.legacy_windows`). -/
+def encodeSegs (legacy : Bool) : List Seg → Except EncErr (List Char)
   | [] => .ok []
   | g :: gs =>
-    match encodeSeg g with
+    match encodeSeg legacy g with
     | .error e => .error e
-    | .ok x => (encodeSegs gs).map (x ++ ·)
+    | .ok x => (encodeSegs legacy gs).map (x ++ ·)
 
 /-! ## `FileProxy` -/
 
@@ -582,6 +587,32 @@ def run (cfg : Cfg) : Proxy → List Op → Proxy × List Event
     let a := p.step cfg op
     let b := run cfg a.1 h
     (b.1, a.2 ++ b.2)
+
+/-! ### The two proxies a live display installs
+
+`Live.start` / `Progress.start` → `_enable_redirect_io` (live.py:196-204, progress.py:634-642):
+`sys.stdout = FileProxy(self.console, sys.stdout)`, `sys.stderr = FileProxy(self.console, sys.stderr)` — two
+proxy objects, each with its own buffer and its own decoder, printing through the SAME console. -/
+
+structure Proxies where
+  out : Proxy
+  err : Proxy
+deriving Repr, DecidableEq
+
+def Proxies.init : Proxies := ⟨Proxy.init, Proxy.init⟩
+
+/-- `false` = stdout, `true` = stderr -/
+def Proxies.get (ps : Proxies) (b : Bool) : Proxy := if b then ps.err else ps.out
+def Proxies.set (ps : Proxies) (b : Bool) (p : Proxy) : Proxies := if b then { ps with err := p } else { ps with out := p }
+
+/-- A history of calls on the two streams, in program order: final states and what the one console was
+asked to print, in order, each event tagged with the stream it came from. -/
+def run2 (cfg : Cfg) : Proxies → List (Bool × Op) → Proxies × List (Bool × Event)
+  | ps, [] => (ps, [])
+  | ps, (b, op) :: h =>
+    let a := (ps.get b).step cfg op
+    let r := run2 cfg (ps.set b a.1) h
+    (r.1, a.2.map (fun e => (b, e)) ++ r.2)
 
 /-! ### `Text("\n").join(parts)` as handed to `console.print` -/
 
